@@ -38,7 +38,7 @@ LEVEL_NOTE = 'Vincenty accuracy (~0.1 mm) and float arithmetic bound the toleran
 TECHNIQUE = 'differential oracle (independent Vincenty geodesics) on return values'
 
 KINDS = ['random', 'antimeridian', 'polar', 'near-antipodal', 'same-longitude',
-         'same-latitude', 'short', 'equator']
+         'same-latitude', 'short', 'equator', 'whole-degrees']
 
 
 def plan(tier, seed):
@@ -52,7 +52,9 @@ def required(tier):
         'probe:overstep', 'probe:overstep-from-beyond-end', 'probe:refused-out-of-range', 'probe:refused-negative',
         'probe:multi-waypoint', 'mission:gc_distance', 'mission:symmetric', 'mission:built:direct',
         'mission:built:from_toml', 'mission:built:from_query_result',
-        'oracle:vincenty', 'oracle:closure-only']
+        'oracle:vincenty', 'oracle:closure-only', 'history:confusable-track-built-before',
+        'history:confusable-track:minus-one-vs-minus-two', 'duplicate:copy', 'duplicate:deepcopy',
+        'duplicate:pickle']
     return {'classes': cl, 'evaluations': 3000}
 
 
@@ -82,6 +84,13 @@ def gen_pair(rng, kind):
         return (la, rng.uniform(-180, 180), la, rng.uniform(-180, 180))
     if kind == 'equator':
         return (0.0, rng.uniform(-180, 180), 0.0, rng.uniform(-180, 180))
+    if kind == 'whole-degrees':
+        # way-points typed in by hand: small whole numbers of degrees (also 0, -1, -2)
+        while True:
+            r = (float(rng.randint(-3, 60)), float(rng.randint(-4, 12)),
+                 float(rng.randint(-3, 60)), float(rng.randint(-4, 12)))
+            if (r[0], r[1]) != (r[2], r[3]):
+                return r
     if kind == 'short':
         la, lo = rng.uniform(-85, 85), rng.uniform(-179, 179)
         dist = 10 ** rng.uniform(0, 5)
@@ -89,6 +98,11 @@ def gen_pair(rng, kind):
         la2, lo2, _ = geodesy.direct(la, lo, rng.uniform(0, 360), dist)
         return (la, lo, la2, lo2)
     raise AssertionError(kind)
+
+
+def _np32(x):
+    import numpy as np
+    return np.float32(x)
 
 
 def run_shard(spec, rec):
@@ -131,8 +145,43 @@ def run_shard(spec, rec):
             pts.append((c, d))
         case = {'kind': kind, 'waypoints': [(round(a, 9), round(b, 9)) for a, b in pts]}
         wps = [Location(longitude=lo, latitude=la) for la, lo in pts]
+        # another track built just before, whose way-points differ from this one's in ONE
+        # coordinate by a value that is easily confused with it (-1 / -2 share a hash in
+        # CPython, 0.0 == -0.0, a neighbouring float, the float32 rounding): this track must
+        # not inherit anything from it
+        if rng.random() < 0.35:
+            i_ = rng.randrange(len(pts))
+            la_, lo_ = pts[i_]
+            which = rng.randrange(2)
+            x = (la_, lo_)[which]
+            conf = {-1.0: -2.0, -2.0: -1.0, 0.0: -0.0}.get(x)
+            if conf is None or rng.random() < 0.3:
+                conf = rng.choice([math.nextafter(x, math.inf), float(_np32(x)), x + 1.0])
+            if conf != x or math.copysign(1, conf) != math.copysign(1, x):
+                dpts = list(pts)
+                dpts[i_] = (conf, lo_) if which == 0 else (la_, conf)
+                if abs(dpts[i_][0]) <= 90 and all(dpts[j] != dpts[j + 1]
+                                                  for j in range(len(dpts) - 1)):
+                    decoy = GroundTrack([Location(longitude=lo, latitude=la) for la, lo in dpts],
+                                        allow_overstep=rng.random() < 0.5)
+                    decoy.total_distance
+                    rec.cls('history:confusable-track-built-before')
+                    if x in (-1.0, -2.0) and conf in (-1.0, -2.0):
+                        rec.cls('history:confusable-track:minus-one-vs-minus-two')
         gt = GroundTrack(list(wps), allow_overstep=False)
         gto = GroundTrack(list(wps), allow_overstep=True)
+        # duplicates of a track (copy, deepcopy, pickle round trip) answer like the original
+        if rng.random() < 0.3:
+            import copy
+            import pickle
+            how = rng.choice(['copy', 'deepcopy', 'pickle'])
+            try:
+                dup = {'copy': copy.copy, 'deepcopy': copy.deepcopy,
+                       'pickle': lambda o: pickle.loads(pickle.dumps(o))}[how]
+                gt, gto = dup(gt), dup(gto)
+                rec.cls(f'duplicate:{how}')
+            except Exception as e:  # noqa: BLE001  (not promised by the property)
+                rec.cls(f'duplicate:{how}:unsupported:{type(e).__name__}')
         refs = [leg_ref(pts[i], pts[i + 1]) for i in range(len(pts) - 1)]
         closure_only = any(r is None for r in refs)
         rec.cls(f'geom:{kind}', 'oracle:closure-only' if closure_only else 'oracle:vincenty')
